@@ -23,6 +23,20 @@ theorem checksumDec_enc (sum : Bytes → Nat) (validate : Bool) (b : Bytes) :
   simp only [this, if_false, ht, hd]
   simp
 
+theorem checksumCodec_lawful (sum : Bytes → Nat) :
+    B2B.Lawful { enc := fun b => some (checksumEnc sum b), dec := fun b => (checksumDec sum true b).toOption,
+                 size := fun n => (n + 4, true) } := by
+  constructor
+  · intro b e h
+    simp only [Option.some.injEq] at h
+    subst h
+    show (checksumDec sum true (checksumEnc sum b)).toOption = some b
+    rw [checksumDec_enc]; rfl
+  · intro b e h
+    simp only [Option.some.injEq] at h
+    subst h
+    simp [checksumEnc_length]
+
 /-! ### `chunksOf` -/
 
 theorem chunksOf_flatten {α} (n : Nat) (hn : 0 < n) : ∀ (fuel : Nat) (l : List α), l.length < fuel →
@@ -188,6 +202,14 @@ theorem shuffle_dec_enc' (es : Nat) (b e : Bytes) (h : shuffleEnc es b = some e)
       rfl
     · rw [List.getElem?_eq_none (by rw [flatMap_range_length, ← hbl]; omega),
         List.getElem?_eq_none (by omega)]
+
+theorem shuffleCodec_lawful (es : Nat) : (shuffleCodec es).Lawful := by
+  constructor
+  · intro b e h
+    exact (shuffle_dec_enc' es b e h).1
+  · intro b e h
+    have := (shuffle_dec_enc' es b e h).2
+    exact ⟨Nat.le_of_eq this, fun _ => this⟩
 
 /-! ### chains -/
 
